@@ -300,9 +300,19 @@ Definition lc_cert_b (c : list gate) (S cone kept_ids : list nat) : bool :=
   && forallb (fun g => subsetb (gqs g) cone) kept
   && subsetb S cone.
 
-(* ---------- a FusedGate given as INPUT to Circuit.fuse ----------
-   The alphabet above has no letter for it; this is what _Queue.to_fused builds for such a gate:
-   FusedGate.from_gate calls append(gate), and append EXTENDS the member list with gate.gates
-   when gate is itself a FusedGate; the node is marked (SpecialGate) and spans all qubits. *)
-Definition node_of_fused_input (n : nat) (members : list gate) : node :=
+(* ---------- a FusedGate given as INPUT ----------
+   A FusedGate in the input circuit (e.g. the output of an earlier fuse) is a SpecialGate: it is
+   the letter (identity, its qubits, KSpec).  to_fused keeps it as ONE opaque member of a marked
+   node spanning all qubits (FusedGate.from_gate: `if isinstance(gate, cls): fgate.gates.append(gate)`),
+   so it is covered by the model above like a callback gate.
+   light_cone: SpecialGate.on_qubits raises NotImplementedError, i.e. the call is refused exactly
+   when a special gate with a non-empty qubit list is kept: *)
+Definition lc_refuses (c : list gate) (S : list nat) : bool :=
+  existsb (fun g => match gk g, gqs g with KSpec, _ :: _ => true | _, _ => false end)
+          (snd (lc_sweep c S)).
+
+(* Behaviour BEFORE the repair of FusedGate.from_gate (kept for the record): from_gate called
+   append(gate), which EXTENDS the member list with gate.gates for a FusedGate, so the node held
+   the (ordinary) members and from_fused dropped it. *)
+Definition prefix_node_of_fused_input (n : nat) (members : list gate) : node :=
   mkNode (seq 0 n) members true [] [].
